@@ -161,8 +161,9 @@ def gen_case(rng, force_dir=None):
         free_ids = [i for i in ids if i not in [e['id'] for e in ext]]
         x = {'id': rng.choice(free_ids) if free_ids and rng.random() < 0.3 else 100 + j, 'start': e_end - rng.randint(0, 5) * DAY, 'end': e_end,
              'in_wbs': rng.random() < 0.7, 'est': rng.choice([None, 8])}
-        if rng.random() < 0.08:
-            x[rng.choice(['start', 'end'])] = None
+        if rng.random() < (0.15 if fwd else 0.3):
+            x[rng.choice(['start', 'end'])] = None          # an outside task that lacks one of its dates
+            x['undated'] = True
         ext.append(x)
     links = []
     for _ in range(rng.choice([0, 1, 1, 2, 3, 4, 6]) if n > 1 else 0):
@@ -171,7 +172,9 @@ def gen_case(rng, force_dir=None):
     for j in range(len(ext)):
         for _ in range(rng.choice([1, 1, 2])):
             m = rng.randrange(n)
-            if rng.random() < 0.75:
+            # an outside task lacking a date is a SUCCESSOR of a member half of the time: only its predecessors are
+            # refused by the pre-check, as a successor it reaches the passes with a None date
+            if rng.random() < (0.5 if ext[j].pop('undated', False) else 0.75):
                 links.append([['x', j], ['t', m]])
             else:
                 links.append([['t', m], ['x', j]])
@@ -244,6 +247,19 @@ def gen_aimed_case(rng, force_dir=None):
         D = base['G'] + chain_pos[d_level]
         X, Z = base['X'], base['Z']
         links = [[t_(Z), t_(A)], [t_(D), t_(X)]] if fwd else [[t_(A), t_(Z)], [t_(X), t_(D)]]
+        if 'F' in base and len(chain_pos) >= 3 and rng.random() < 0.7:
+            # a SECOND ancestor level carries a dependency of its own (on the filler root F): prerequisites are
+            # inherited from every ancestor, not only from the nearest linked one
+            lv = rng.choice([l for l in range(len(chain_pos) - 1) if l != a_level] or [a_level])
+            A2 = base['G'] + chain_pos[lv]
+            # the prerequisite of the OUTER level ends later than that of the inner one (else the inner bound hides it)
+            outer_is_f = lv < a_level
+            out[base['F']]['est'] = 320 if outer_is_f else rng.choice([8, 16])
+            out[Z]['est'] = rng.choice([8, 16]) if outer_is_f else 320
+            out[base['F']]['resource'], out[Z]['resource'] = 'b', 'c'
+            links.append([t_(base['F']), t_(A2)] if fwd else [t_(A2), t_(base['F'])])
+        if rng.random() < 0.3:
+            links = [l for l in links if l[0] != t_(D) and l[1] != t_(D)] or links     # without the sideways entry
         c['tasks'], c['links'] = out, links
     else:
         # several tasks of one resource released late (common predecessor on another resource or min_start) and each
@@ -364,6 +380,17 @@ CORPUS = [
     C('fwd', [T(1, est=80, resource='default'), T(2, est=128, resource='default')], pb=day_us(0), now=day_us(-30)),
     # clock after the project start
     C('fwd', [T(1, est=80), T(2, est=16, min_start=day_us(9))], pb=day_us(0), now=day_us(3, 15 * H)),
+    # triggers of seeded changes that the random stream reaches rarely
+    # (C02-A) two nested summaries that BOTH wait for somebody, the outer prerequisite ending later than the inner one
+    C('fwd', [T(1, est=320, resource='b'), T(2, est=8, resource='c'), T(10), T(11, parent=2), T(12, parent=3),
+              T(13, parent=3, milestone=True)], links=[(t_(0), t_(2)), (t_(1), t_(3))]),
+    C('bwd', [T(10), T(11, parent=0), T(12, parent=1), T(1, est=320, resource='b'), T(2, est=8, resource='c')],
+      links=[(t_(0), t_(3)), (t_(1), t_(4))], pb=day_us(40)),
+    # (C14-A) an outside SUCCESSOR that lacks its start (only outside predecessors are refused): it is ignored
+    C('bwd', [T(1), T(2)], ext=[{'id': 100, 'start': None, 'end': day_us(3), 'in_wbs': True}], links=[(t_(0), x_(0))], pb=day_us(10)),
+    C('bwd', [T(1), T(2, parent=0)], ext=[{'id': 100, 'start': None, 'end': day_us(3), 'in_wbs': False}],
+      links=[(t_(0), x_(0)), (t_(1), x_(0))], pb=day_us(10)),
+    C('fwd', [T(1)], ext=[{'id': 100, 'start': day_us(3), 'end': None, 'in_wbs': True}], links=[(t_(0), x_(0))]),
 ]
 
 
